@@ -1,1 +1,229 @@
-fn main() { eprintln!("placeholder"); std::process::exit(2); }
+//! walsim — decides C03 (WAL replay applies exactly the longest valid frame prefix) by seeded
+//! deterministic simulation of `turdb::storage::Wal` with enumerated stored-byte faults.
+
+mod crash;
+mod engine;
+mod exec;
+mod faults;
+mod model;
+
+use simcore::driver::{self, CheckSpec, Engine};
+use simcore::pool::{self, JobStatus, PoolCfg};
+use simcore::Tier;
+use std::time::Duration;
+
+const PROFILE: &str = "wal@C03";
+const QUICK_RUNS: u64 = 600;
+const THOROUGH_RUNS: u64 = 3000;
+
+fn arg_value(args: &[String], flag: &str) -> Option<String> {
+    args.iter().position(|a| a == flag).and_then(|i| args.get(i + 1).cloned())
+}
+
+fn env_u64(k: &str) -> Option<u64> {
+    std::env::var(k).ok().and_then(|v| v.parse().ok())
+}
+
+fn workers() -> usize {
+    env_u64("VSIM_WORKERS")
+        .map(|v| v as usize)
+        .unwrap_or_else(|| std::thread::available_parallelism().map(|n| n.get()).unwrap_or(8).min(16))
+}
+
+fn cmd_check(args: &[String]) -> i32 {
+    let id = match args.first() {
+        Some(i) => i.clone(),
+        None => {
+            eprintln!("usage: walsim check C03 [--tier quick|thorough] [--seed N] [--runs N]");
+            return 2;
+        }
+    };
+    if id != "C03" {
+        eprintln!("unknown property {} (walsim serves C03)", id);
+        return 2;
+    }
+    let tier = Tier::parse(&arg_value(args, "--tier").or_else(|| std::env::var("VERIF_TIER").ok()).unwrap_or_else(|| "quick".into()));
+    let seed = arg_value(args, "--seed").and_then(|s| s.parse().ok()).or_else(|| env_u64("VERIF_SEED")).unwrap_or(1);
+    let runs = arg_value(args, "--runs")
+        .and_then(|s| s.parse().ok())
+        .or_else(|| env_u64("VSIM_RUNS"))
+        .unwrap_or(if tier == Tier::Thorough { THOROUGH_RUNS } else { QUICK_RUNS });
+    let spec = CheckSpec {
+        property: "C03".into(),
+        profile: PROFILE.into(),
+        tier,
+        seed,
+        runs,
+        workers: workers(),
+        run_timeout: Duration::from_secs(if tier == Tier::Thorough { 300 } else { 120 }),
+        batch_budget: Duration::from_secs(if tier == Tier::Thorough { 1200 } else { 150 }),
+        level: "fault_enumeration".into(),
+        also_owns: vec![],
+        min_budget_runs: if tier == Tier::Thorough { 600 } else { 300 },
+        min_budget_wall: Duration::from_secs(if tier == Tier::Thorough { 30 } else { 12 }),
+        max_minimise: if tier == Tier::Thorough { 48 } else { 32 },
+    };
+    driver::run_check(&engine::WalSim, &spec)
+}
+
+fn cmd_replay(args: &[String]) -> i32 {
+    match args.first() {
+        Some(p) => driver::replay(&engine::WalSim, std::path::Path::new(p)),
+        None => {
+            eprintln!("usage: walsim replay <file>");
+            2
+        }
+    }
+}
+
+/// `walsim run1 <profile> <seed> <run> [tier]`
+fn cmd_run1(args: &[String]) -> i32 {
+    if args.len() < 3 {
+        eprintln!("usage: walsim run1 <profile> <seed> <run> [tier]");
+        return 2;
+    }
+    let e = engine::WalSim;
+    let profile = args[0].clone();
+    let seed: u64 = args[1].parse().unwrap_or(1);
+    let run: u64 = args[2].parse().unwrap_or(0);
+    let tier = Tier::parse(args.get(3).map(|s| s.as_str()).unwrap_or("quick"));
+    let base = pool::default_scratch_base();
+    let cfg = PoolCfg { workers: 1, timeout: Duration::from_secs(600), scratch: base.join("run1"), deadline: None };
+    let res = pool::run_jobs(&cfg, &[run], |j| e.run_seeded(&profile, seed, j, tier));
+    pool::cleanup(&base);
+    for (_, st) in res {
+        match st {
+            JobStatus::Done(o) => {
+                println!("{}", serde_json::to_string_pretty(&o.sample).unwrap_or_default());
+                println!("counters: {:?}", o.counters);
+                println!("events_hash={:016x} nontrivial={} harness_error={:?}", o.events_hash, o.nontrivial, o.harness_error);
+                for v in &o.violations {
+                    println!("VIOL {} :: {}\n     case: {}", v.sig_string(), v.detail, v.case);
+                }
+            }
+            other => println!("{:?}", other),
+        }
+    }
+    0
+}
+
+/// `walsim selfcheck determinism <n> [seed] [tier]`: every seed twice, at two worker counts and
+/// with a differently sized environment.
+fn cmd_selfcheck(args: &[String]) -> i32 {
+    if args.len() < 2 || args[0] != "determinism" {
+        eprintln!("usage: walsim selfcheck determinism <n> [seed] [tier]");
+        return 2;
+    }
+    let e = engine::WalSim;
+    let n: u64 = args[1].parse().unwrap_or(300);
+    let seed: u64 = args.get(2).and_then(|s| s.parse().ok()).unwrap_or(1);
+    let tier = Tier::parse(args.get(3).map(|s| s.as_str()).unwrap_or("quick"));
+    let base = pool::default_scratch_base();
+    let jobs: Vec<u64> = (0..n).collect();
+    let mut hashes: Vec<Vec<(u64, String)>> = vec![];
+    for (round, w) in [(0, 5usize), (1, 16usize)] {
+        let cfg = PoolCfg { workers: w, timeout: Duration::from_secs(300), scratch: base.join(format!("det{}", round)), deadline: None };
+        if round == 1 {
+            std::env::set_var("VSIM_PAD", "x".repeat(777));
+        }
+        let res = pool::run_jobs(&cfg, &jobs, |j| e.run_seeded(PROFILE, seed, j, tier));
+        hashes.push(
+            res.into_iter()
+                .map(|(j, st)| match st {
+                    JobStatus::Done(o) => {
+                        let sigs: Vec<String> = o.violations.iter().map(|v| v.sig_string()).collect();
+                        (j, format!("{:016x}/{}v/{:016x}/{:?}", o.events_hash, o.violations.len(), simcore::rng::fnv1a(sigs.join(";").as_bytes()), o.harness_error))
+                    }
+                    other => (j, format!("{:?}", other).chars().take(60).collect()),
+                })
+                .collect(),
+        );
+    }
+    pool::cleanup(&base);
+    let mut bad = 0;
+    for (a, b) in hashes[0].iter().zip(hashes[1].iter()) {
+        if a != b {
+            println!("DIVERGED run {}: {} vs {}", a.0, a.1, b.1);
+            bad += 1;
+        }
+    }
+    println!("determinism: {} seed pairs, {} diverged", n, bad);
+    if bad > 0 {
+        1
+    } else {
+        0
+    }
+}
+
+/// `walsim survey <profile> <n> [seed] [tier]`: signature histogram over n seeded runs.
+fn cmd_survey(args: &[String]) -> i32 {
+    if args.len() < 2 {
+        eprintln!("usage: walsim survey <profile> <n> [seed] [tier]");
+        return 2;
+    }
+    let e = engine::WalSim;
+    let profile = args[0].clone();
+    let n: u64 = args[1].parse().unwrap_or(100);
+    let seed: u64 = args.get(2).and_then(|s| s.parse().ok()).unwrap_or(1);
+    let tier = Tier::parse(args.get(3).map(|s| s.as_str()).unwrap_or("quick"));
+    let base = pool::default_scratch_base();
+    let cfg = PoolCfg { workers: workers(), timeout: Duration::from_secs(300), scratch: base.join("survey"), deadline: None };
+    let jobs: Vec<u64> = (0..n).collect();
+    let t0 = std::time::Instant::now();
+    let res = pool::run_jobs(&cfg, &jobs, |j| e.run_seeded(&profile, seed, j, tier));
+    pool::cleanup(&base);
+    let mut hist: std::collections::BTreeMap<String, (u64, u64, String)> = Default::default();
+    let mut counters: std::collections::BTreeMap<String, u64> = Default::default();
+    let mut clean = 0;
+    for (j, st) in res {
+        match st {
+            JobStatus::Done(o) => {
+                for (k, v) in &o.counters {
+                    *counters.entry(k.clone()).or_insert(0) += v;
+                }
+                if let Some(e) = &o.harness_error {
+                    hist.entry(format!("HARNESS {}", e)).or_insert((0, j, String::new())).0 += 1;
+                }
+                if o.violations.is_empty() {
+                    clean += 1;
+                }
+                let mut seen = std::collections::BTreeSet::new();
+                for v in &o.violations {
+                    if seen.insert(v.sig_string()) {
+                        hist.entry(v.sig_string()).or_insert((0, j, v.detail.clone())).0 += 1;
+                    }
+                }
+            }
+            other => {
+                hist.entry(format!("{:?}", other).chars().take(300).collect()).or_insert((0, j, String::new())).0 += 1;
+            }
+        }
+    }
+    let mut v: Vec<_> = hist.into_iter().collect();
+    v.sort_by_key(|(_, (c, _, _))| std::cmp::Reverse(*c));
+    println!("{} runs, {} clean, {:.1}s", n, clean, t0.elapsed().as_secs_f64());
+    println!("counters: {:#?}", counters);
+    for (sig, (c, j, d)) in v {
+        let d: String = d.chars().take(900).collect();
+        println!("{:5}x run{} {}\n        {}", c, j, sig, d);
+    }
+    0
+}
+
+fn main() {
+    let args: Vec<String> = std::env::args().collect();
+    simcore::noaslr::ensure();
+    simdisk::plug_hash_order();
+    let code = match args.get(1).map(|s| s.as_str()) {
+        Some("check") => cmd_check(&args[2..]),
+        Some("replay") => cmd_replay(&args[2..]),
+        Some("run1") => cmd_run1(&args[2..]),
+        Some("selfcheck") => cmd_selfcheck(&args[2..]),
+        Some("survey") => cmd_survey(&args[2..]),
+        _ => {
+            eprintln!("usage: walsim check C03 [--tier quick|thorough] [--seed N] [--runs N] | replay <file> | run1 <profile> <seed> <run> [tier] | survey <profile> <n> [seed] [tier] | selfcheck determinism <n> [seed] [tier]");
+            2
+        }
+    };
+    std::process::exit(code);
+}
